@@ -104,6 +104,34 @@ CLAIMED.update({
             "DESIGN.md §3 C01", "abstract interpretation of the generator with bounded symbolic loops (each emit site seen once), conjunct-bound analysis of destination sets, path facts for guards"),
 })
 
+CLAIMED.update({
+    "C03": ("other",
+            "Decides the search discipline on every enumerated path of the search functions (all calls abstracted to events; each loop entered at "
+            "most once per path so that every call site and every intra-iteration order is seen): push/pop typestate balance over the CFG of every "
+            "function outside the board package that pushes moves (depth 0 at returns, 1 at child searches, consistent at joins); children are "
+            "searched at depth-1 with (Negate(beta), Negate(current alpha)); a child's score enters comparisons only as "
+            "Negate(IncrementMateDistance(child)); the value returned after the move loop is alpha (or -inf) or a child value established above "
+            "it; the cut-off test is alpha == beta or beta.Less(alpha); the mate/stalemate verdict is produced exactly when no push succeeded; "
+            "move ordering is a permutation (NewMoveList slot-wise copy, heap never grows, priorities do not modify moves). Numeric equality with "
+            "minimax and PV optimality are not decided.",
+            "DESIGN.md §3 C03", "CFG typestate (push/pop depth) + path enumeration over abstracted search events by abstract interpretation of go/ssa"),
+    "C12": ("other",
+            "Decides on every enumerated path: each recursive search function polls for cancellation first and does no work on the cancelled "
+            "path; the public Search methods poll after the root call and return ErrHalted, never the child's score, when cancelled; between any "
+            "child evaluation and a transposition-table write lies a cancellation poll whose not-cancelled edge is taken (no store from a cut-short "
+            "child); the interior write is exact only after the move loop was exhausted; push/pop balance on all paths; Halt closes quit, the "
+            "controller searches under the context derived from quit, nested searches forward the caller's context. The numeric 'as if it never "
+            "ran' statement is not decided; table writes are its only channel besides evaluator state (C18).",
+            "DESIGN.md §3 C12", "path enumeration over abstracted search events (cancellation polls, child searches, table writes) + CFG typestate"),
+    "C13": ("other",
+            "Decides: the window is taken from the search context with -inf/+inf substituted exactly for invalid bounds (per path over the "
+            "IsInvalid tests); at depth 0 the node's current (alpha,beta) is what the leaf search receives; every value returned after the move "
+            "loop is alpha or a child value established above it (fail-hard lower side), and in quiescence also not below the static evaluation; "
+            "mate/stalemate are returned exactly on the no-legal-move path and no cut-off is taken before a legal move was found. The clipping "
+            "relation against the true value on concrete positions is not decided.",
+            "DESIGN.md §3 C13", "path enumeration over abstracted search events with a >=-provenance relation on returned values"),
+})
+
 NOT_APPLICABLE = {
     "C11": "Transparency of the transposition table is a numeric equality between two complete searches over all positions x depths x table sizes x search sequences; no sound static abstraction in reach bounds it. Its shape-visible clauses are decided under C12 (no store after cancellation, exact bound only after a full loop), C04 (root exits) and C17 (slot discipline).",
 }
